@@ -1,10 +1,15 @@
 import SedVerif.Drv.C01
+import SedVerif.Drv.C02
+import SedVerif.Drv.C04
+import SedVerif.Drv.C06
+import SedVerif.Drv.C10
+import SedVerif.Drv.C15
 /-!
 Line-protocol driver: `lake env lean --run Driver.lean`.  Imports only model files (no Mathlib).
 -/
 open Drv
 
-def handlers : List (String → Option (Rd String)) := [handleC01]
+def handlers : List (String → Option (Rd String)) := [handleC01, handleC02, handleC04, handleC06, handleC10, handleC15]
 
 def dispatch (op : String) : Option (Rd String) :=
   handlers.findSome? (fun h => h op)
